@@ -41,8 +41,13 @@ VH_ENTRY vh_classmap() {
       (void)s->findClassIndex(cid, gid);
       (void)s->getClassGlyph(cid, idx);
     }
+#ifdef REACH_ACCEPT
+    VH_END();
+#endif
   }
+#ifndef REACH_ACCEPT
   VH_END();
+#endif
 }
 
 #ifndef NPS
